@@ -211,6 +211,7 @@ def _dedup(terms):
 # =============================================================================================
 INT, STR, BOOL = T("int"), T("str"), T("bool")
 NONE = "~none"
+ENDSTR = "~ENDSTR"      # the literal STRING "END" used as a gate target (the sentinel END is spelled "END" in the IR)
 
 
 def fn(name, inputs=(), outputs=(), emit=(), wait_for=(), defaults=(), types=None):
@@ -219,12 +220,14 @@ def fn(name, inputs=(), outputs=(), emit=(), wait_for=(), defaults=(), types=Non
     return {"name": name, "kind": "func", "inputs": list(inputs), "outputs": list(outputs), "emit": list(emit),
             "wait_for": list(wait_for), "defaults": [[p, v] for p, v in defaults], "targets": [], "multi": False,
             "intypes": [[p, types[p]] for p in inputs if p in types],
-            "outtypes": [[o, types[o]] for o in outputs if o in types], "sub": [], "ren": [], "oren": []}
+            "outtypes": [[o, types[o]] for o in outputs if o in types], "sub": [], "ren": [], "oren": [],
+            # fallback: a route gate's default target (NONE: no fallback); fnkind: plain | async | gen | agen
+            "fallback": NONE, "fnkind": "plain"}
 
 
-def route(name, inputs, targets, multi=False, emit=(), wait_for=(), defaults=(), types=None):
+def route(name, inputs, targets, multi=False, emit=(), wait_for=(), defaults=(), types=None, fallback=None):
     n = fn(name, inputs, (), emit, wait_for, defaults, types)
-    n.update(kind="route", targets=list(targets), multi=multi)
+    n.update(kind="route", targets=list(targets), multi=multi, fallback=fallback or NONE)
     return n
 
 
@@ -493,7 +496,24 @@ def flaws_at(p, path, quick):
                     d, q, l = mut("gate-self-target", node=i, how="replace", pos=k)
                     l["nodes"][i]["targets"][k] = n["name"]
                     yield d, q
+            # -- gate DEFINITION rules (checked by the node constructors)
+            for fk in ("async", "gen", "agen"):
+                d, q, l = mut("gate-function-kind", node=i, fnkind=fk)
+                l["nodes"][i]["fnkind"] = fk
+                yield d, q
+            for k in range(len(n["targets"])):
+                d, q, l = mut("gate-end-string-target", node=i, pos=k)
+                l["nodes"][i]["targets"][k] = ENDSTR
+                yield d, q
             if n["kind"] == "route":
+                d, q, l = mut("route-no-targets", node=i)
+                l["nodes"][i]["targets"] = []
+                yield d, q
+                others = [m["name"] for m in L["nodes"] if m["name"] != n["name"]]
+                for fb in ([t for t in n["targets"] if t != "END"][:1] + others[:1] + ["END", "zz", ENDSTR]):
+                    d, q, l = mut("route-fallback", node=i, fallback=fb)       # valid unless multi / unknown / the string "END"
+                    l["nodes"][i]["fallback"] = fb
+                    yield d, q
                 d, q, l = mut("gate-unknown-target", node=i, how="add")
                 l["nodes"][i]["targets"].append("zz")
                 yield d, q
@@ -692,7 +712,9 @@ class Rejected(Exception):
 def _callable_for(n, form):
     dfl = dict(map(tuple_pair, n["defaults"]))
     params = [x for x in n["inputs"] if x not in dfl] + [x for x in n["inputs"] if x in dfl]
-    src = "def body(" + ", ".join(f"{x}={dfl[x]!r}" if x in dfl else x for x in params) + "):\n    return None\n"
+    head = {"plain": "def", "async": "async def", "gen": "def", "agen": "async def"}[n["fnkind"]]
+    tail = "yield None" if n["fnkind"] in ("gen", "agen") else "return None"
+    src = head + " body(" + ", ".join(f"{x}={dfl[x]!r}" if x in dfl else x for x in params) + "):\n    " + tail + "\n"
     ns = {}
     exec(src, ns)  # noqa: S102 - harness-generated node body
     f = ns["body"]
@@ -763,14 +785,15 @@ def build(p, path="", form="U", check_interface=True, grow=False):
             continue
         f = _callable_for(n, form)
         kw = {"name": n["name"], "emit": tuple(n["emit"]) or None, "wait_for": tuple(n["wait_for"]) or None}
-        tg = [END if t == "END" else t for t in n["targets"]]
+        tg = [END if t == "END" else "END" if t == ENDSTR else t for t in n["targets"]]
+        fb = None if n["fallback"] == NONE else END if n["fallback"] == "END" else "END" if n["fallback"] == ENDSTR else n["fallback"]
         try:
             with warnings.catch_warnings():
                 warnings.simplefilter("ignore")
                 if n["kind"] == "func":
                     node = FunctionNode(f, output_name=tuple(n["outputs"]) or None, **kw)
                 elif n["kind"] == "route":
-                    node = RouteNode(f, targets=tg, multi_target=n["multi"], **kw)
+                    node = RouteNode(f, targets=tg, multi_target=n["multi"], fallback=fb, **kw)
                 else:
                     node = IfElseNode(f, when_true=tg[0], when_false=tg[1], **kw)
         except Exception as e:  # noqa: BLE001
